@@ -147,7 +147,7 @@ def run_eval(out: Outcome, drv):
     n_hist = 250 if out.tier == "quick" else 6000
     depth = 4 if out.tier == "quick" else 6
     rng = gen.rng_for(out.seed, "C20", "eval")
-    reqs, meta = [], []
+    reqs, meta, rejected = [], [], []
     for h in range(n_hist):
         stats = {k: rng.choice([F(0), F(1), F(2), F(5, 2), F(-3), F(10), F(1, 4)]) for k in STATS}
         steps = rng.randint(1, 6)
@@ -158,11 +158,13 @@ def run_eval(out: Outcome, drv):
                 fx = rng.choice(BROKEN)
                 o = call_eval(fx, stats)
                 hist.append(["broken", fx, o.get("error_type")])
+                rejected.append((fx, stats, o))
                 continue
             if r < 0.35:
                 fx = rng.choice(BAD_IDENT)
                 o = call_eval(fx, stats)
                 hist.append(["bad-ident", fx, o.get("error_type")])
+                rejected.append((fx, stats, o))
                 continue
             t, v = gen_expr(rng, rng.randint(0, depth), stats)
             fx = render(rng, t)
@@ -175,6 +177,21 @@ def run_eval(out: Outcome, drv):
                          "obs": {"error": o["error"]} if "error" in o else {"value": enc(o["value"])}})
             meta.append((case, o, v))
     ans = drv.run(reqs)
+    # the same strings through the Lean model of the GRAMMAR (IoosQc.parseString, theorems C20_parse_min / _full)
+    preqs = [{"kind": "fx_parse", "stats": r["stats"], "fx": case["fx"], "obs": r["obs"]} for r, (case, o, v) in zip(reqs, meta)]
+    for (case, o, v), a in zip(meta, drv.run(preqs)):
+        out.tags["grammar:parsed" if a["parsed"] else "grammar:rejected"] += 1
+        if not a["holds"]:
+            out.violation(f"IoosQc.parseString / C20_parse_min: eval_fx({case['fx']!r}) gave {o}; the grammar model "
+                          f"{'parses it to value ' + str(a['model']) if a['parsed'] else 'rejects it'}",
+                          {"case": jsonable(case), "observed": jsonable(o), "model": a["model"]})
+    rj = [{"kind": "fx_parse", "stats": enc(st), "fx": fx, "obs": {"error": o["error"]} if "error" in o else {"value": enc(o["value"])}}
+          for fx, st, o in rejected]
+    for (fx, st, o), a in zip(rejected, drv.run(rj)):
+        out.record({"rejected_fx": fx, "stats": jsonable(st)}, True, ["rejected-expression"])
+        if not a["holds"]:
+            out.violation(f"IoosQc.parseString: eval_fx({fx!r}) returned {o} for a string outside the grammar",
+                          {"case": {"fx": fx}, "observed": jsonable(o), "model": a["model"]})
     for (case, o, v), a in zip(meta, ans):
         out.record(case, len(case["fx"]) > 3, ["eval", "error" if "error" in o else "value", f"hist:{len(case['history'])}"])
         if not a["holds"]:
